@@ -218,6 +218,14 @@ def units(tier):
                 (['long_tainted'] * 8, 'int'), (['long_plain', 'long_tainted', 'long_opaque', 'ulong_tainted', 'int_plain', 'ptr_tainted', 'nullptr', 'long_plain', 'long_tainted', 'ptr_tainted', 'int_plain', 'long_opaque'], 'int')]
     insts = [invoke_inst(p, r, tier) for p, r in fam] + [fnptr_inst(tier), lookup_inst('lookup_symbol', tier), lookup_inst('internal_lookup_symbol', tier),
                                                                   lookup_inst('lookup_symbol', tier, 'vsbx_il'), lookup_inst('internal_lookup_symbol', tier, 'vsbx_il'), by_name_inst(tier), addr_by_name_inst(tier)]
+    # by-value struct arguments and results with array-of-pointer fields reach the array arm of the conversion dispatcher
+    # (convert_type_non_class): element-by-element translation in both directions also for a guest representation as wide as
+    # a host pointer (backend variant vsbx64; contracts of C04, example-context form of the same arm)
+    from . import C04
+    for it in (C04.ptr_array_inst(4, tier, 'vsbx64'), C04.ptr_array_store_inst(4, tier, 'vsbx64')):
+        it.name = it.name.replace('c04_', 'c11_pointer_array_')
+        it.prop = PROP
+        insts.append(it)
     return [Unit('C11_invoke', insts)]
 
 
